@@ -97,6 +97,7 @@ MIMEXML = """<?xml version="1.0"?>%(prolog)s
 PATHS = ["root-wsdl", "wsdl:import", "xsd:import", "xsd:include", "auto-import", "soap-reply", "soap-multipart-root",
          "http-mimexml-reply", "http-mimecontent-reply"]
 ENC = "http://schemas.xmlsoap.org/soap/encoding/"
+REPLY_PATHS = ("soap-reply", "soap-multipart-root", "http-mimexml-reply", "http-mimecontent-reply")
 
 
 def _zeep():
@@ -120,6 +121,8 @@ def make_transport(docs, reply):
             super().__init__()
             self.loads = []
             self.evil = []
+            self.docs = docs
+            self.reply_fn = [reply]
 
         def load(self, url):
             self.loads.append(url)
@@ -127,14 +130,14 @@ def make_transport(docs, reply):
                 self.evil.append(url)
                 return b"<!ENTITY ext 'EVIL-EXTERNAL-CONTENT'>"
             if url == ENC:
-                return docs["enc.xsd"].encode()
+                return self.docs["enc.xsd"].encode()
             name = urlparse(url).path.rsplit("/", 1)[-1]
-            return docs[name].encode()
+            return self.docs[name].encode()
 
         def _resp(self):
             r = requests.Response()
             r.status_code = 200
-            ctype, body = reply()
+            ctype, body = self.reply_fn[0]()
             r.headers["Content-Type"] = ctype
             r._content = body
             r.encoding = "utf-8"
@@ -169,8 +172,9 @@ def classify(exc):
     return "Other:" + type(exc).__name__
 
 
-def run_case(path, vname, var, settings_bits, canary_secret):
-    """returns (outcome class, evil urls requested, exposed?)"""
+def run_case(path, vname, var, settings_bits, canary_secret, shared=None):
+    """returns (outcome class, evil urls requested, exposed?).  `shared` (a dict) carries a transport
+    (and, for reply paths, a client) from an earlier load so that sequences share state."""
     z = _zeep()
     prolog, ref, has_dt, decl = var
     fd, fe, fx, strict, huge = settings_bits
@@ -204,10 +208,31 @@ def run_case(path, vname, var, settings_bits, canary_secret):
         if path == "soap-multipart-root":
             return multipart(x)
         return "text/xml; charset=utf-8", x.encode()
-    tr = make_transport(docs, reply)
+    if shared is not None and "tr" in shared:
+        tr = shared["tr"]
+        tr.reply_fn[0] = reply
+        tr.docs.clear()
+        tr.docs.update(docs)
+        del tr.evil[:]
+    else:
+        tr = make_transport(docs, reply)
+        if shared is not None:
+            shared["tr"] = tr
     result_repr = ""
     try:
-        client = z.Client("http://h.example/w/root.wsdl", transport=tr, settings=st)
+        if shared is not None and path in REPLY_PATHS and "client" in shared:
+            client = shared["client"]
+        else:
+            client = z.Client("http://h.example/w/root.wsdl", transport=tr,
+                              settings=st if not (shared is not None and path in REPLY_PATHS) else z.settings.Settings())
+            if shared is not None and path in REPLY_PATHS:
+                shared["client"] = client
+        if shared is not None and path in REPLY_PATHS:
+            ctxm = client.settings(forbid_dtd=fd, forbid_entities=fe, forbid_external=fx, strict=strict, xml_huge_tree=huge)
+        else:
+            import contextlib
+            ctxm = contextlib.nullcontext()
+        ctxm.__enter__()
         if path in ("soap-reply", "soap-multipart-root"):
             reply_doc["xml"] = ENVELOPE % hostile
             r = client.bind("svc", "p11").op("x")
@@ -230,6 +255,11 @@ def run_case(path, vname, var, settings_bits, canary_secret):
         outcome = "accepted"
     except Exception as e:  # noqa
         outcome = classify(e)
+    finally:
+        try:
+            ctxm.__exit__(None, None, None)
+        except Exception:  # noqa
+            pass
     exposed = any(m in result_repr for m in (canary_secret, "EVIL-EXTERNAL-CONTENT"))
     return outcome, list(tr.evil), exposed
 
@@ -300,6 +330,29 @@ def run(ctx):
                 m = mo.get("ok")
                 if m != outcome:
                     res.disagreements.append(dict(relation="Loader.policy vs zeep (outcome class)", case=case, model=m, impl=outcome))
+        # sequences on shared state: the same URL / the same client under different settings, one after the
+        # other (each load must be judged under the settings current at that moment)
+        LEN = (False, False, True, True, False)
+        STRICTS = [(False, True, True, True, False), (True, False, True, True, False), (True, True, True, False, False)]
+        seqs = []
+        for path in PATHS:
+            for vname in ("doctype-only", "internal-unused", "internal-used", "ext-system-file"):
+                for sb in STRICTS:
+                    seqs.append((path, vname, [LEN, sb]))
+                    seqs.append((path, vname, [sb, LEN, sb]))
+        for path, vname, seq in seqs:
+            var = vs[vname]
+            shared = {}
+            for i, bits in enumerate(seq):
+                outcome, evil, exposed = run_case(path, vname, var, bits, secret, shared=shared)
+                res.case(key=("seq", path, vname, tuple(seq), i), nontrivial=True)
+                res.count("sequence-step")
+                exp = expected_property(var, bits)
+                case = dict(path=path, variant=vname, sequence=[list(b) for b in seq], step=i)
+                if evil or exposed or (exp == "reject" and outcome == "accepted") or (exp == "accept" and outcome != "accepted"):
+                    res.failures.append(dict(what="in a sequence of loads sharing a transport / client, step %d is not judged by the settings "
+                                             "current at that step (outcome %s, policy demands %s; evil=%s exposed=%s)" % (i, outcome, exp, evil, exposed),
+                                             case=case, outcome=outcome))
         res.sample(dict(path="soap-reply", variant="ext-system-file", doc=ENVELOPE % dict(prolog=vs["ext-system-file"][0], ref="&e;")))
         res.sample(dict(path="xsd:include", variant="parameter", prolog=vs["parameter"][0]))
     finally:
@@ -307,7 +360,7 @@ def run(ctx):
     res.exhaustive = True
     res.programs = len(PATHS)
     res.rule = ("9 ingress paths x 12 document variants (benign, DOCTYPE only, internal used/unused, parameter, external SYSTEM http/file, "
-                "PUBLIC, external subset http/file, nested expansion, external parameter entity) x all 32 combinations of the five settings. distinct = distinct (path, variant, settings); non-trivial = not the benign variant")
+                "PUBLIC, external subset http/file, nested expansion, external parameter entity) x all 32 combinations of the five settings; plus two- and three-step sequences (lenient/strict alternations) on a shared transport (document paths: a new client per step) or a shared client under client.settings(...) overrides (reply paths). distinct = distinct (path, variant, settings); non-trivial = not the benign variant")
     return res
 
 
@@ -318,6 +371,10 @@ def search(ctx):
 
 def replay(ctx, payload):
     case = payload.get("case", payload)
+    if "sequence" in case:
+        r = run(ctx)
+        bad = [f for f in r.failures if f["case"].get("sequence") == case["sequence"] and f["case"]["path"] == case["path"]]
+        return (not bad), "sequence rerun: %d failures" % len(bad)
     tmp = tempfile.mkdtemp(prefix="zeepverif-c10-")
     try:
         canary = os.path.join(tmp, "canary.txt")
